@@ -13,9 +13,15 @@ where rows are ordered lists:
     merged with a recorded sort, nested above a recorded slice, or wrapped around a UNION;
   * `binary_refuses_unsliced_sort`, `materialize_refuses_unsliced_sort`: where a sort without a slice
     would be buried under a join, a chain or a materialization, the engine raises
-    `RelationalAlgebraError` instead of dropping it.
+    `RelationalAlgebraError` instead of dropping it;
+  * `emitted_select_honours_sort_and_slice`: the query emitted for a coherent Select returns, under the list
+    semantics of SQL, the skip target's rows stably sorted by the recorded terms, projected, deduplicated and
+    THEN cut to the recorded window - ORDER BY and OFFSET/LIMIT of one query level, in that order;
+  * `sorted_slice_executes_in_order`: sort then slice through the factories, conform, compile, evaluate:
+    the database returns rows [start, stop) of the stably sorted rows, in that order.
 -/
 import DafRel.Lemmas.ConformSound
+import DafRel.Lemmas.SqlRunSound
 
 namespace DafRel.Props.C11
 
@@ -52,5 +58,43 @@ theorem materialize_refuses_unsliced_sort (st : Store) (fuel : Nat) (t : Rel) (n
   rw [materialize]
   simp only [hk, hc, bind, Except.bind, h, if_true]
   rfl
+
+theorem emitted_select_honours_sort_and_slice (σ : Leaves) (s : SqlState) (fuel : Nat) (S : Rel) (ctr : Nat)
+    (q : Query) (c : Nat) (hg : Good σ S) (hs : S.isSelect = true) (hrd : S.SqlReady s s.tables σ)
+    (h : compileSelect s fuel S ctr = .ok (q, c)) (hdup : q.hasDup = false) :
+    (Query.eval s.tables q).rows = S.slots.sem S.skipTo.columns (sem σ S.skipTo) := by
+  rw [(compile_sound σ s fuel).select S ctr q c hg hs hrd h hdup]
+  exact (hg.selInv hs).1.sem_eq
+
+theorem sorted_slice_executes_in_order (σ : Leaves) (s : SqlState) (st : Store) (f1 f2 : Nat)
+    (ts : List SortTerm) (a : Nat) (b : Option Nat) (t : Rel) (r1 r2 : Res) (out : EvalOut) (bb : Bool)
+    (hwf : t.WF) (htr : t.Truthful σ) (hraw : t.RawSql)
+    (h1 : applyOp st f1 (.u (.sort ts)) t {} = .ok r1)
+    (h2 : applyOp st f2 (.u (.slice a b)) (r1.get t) {} = .ok r2)
+    (hready : ∀ c, conform st defaultFuel (r2.get (r1.get t)) = .ok c →
+      (c.get (r2.get (r1.get t))).structReady s = true ∧ (c.get (r2.get (r1.get t))).Faithful s s.tables σ)
+    (hrun : sqlRun s st (r2.get (r1.get t)) = .inr (out, bb)) :
+    out.rows = sliceList a b (isort (lexLe ts) (sem σ t)) := by
+  obtain ⟨g1, F1, _⟩ := (treeBuild_sound σ st f1).apply _ t r1 (raw_good σ t hwf htr hraw) h1
+  obtain ⟨g2, F2, _⟩ := (treeBuild_sound σ st f2).apply _ (r1.get t) r2 g1 h2
+  rw [sqlRun_sound_good σ s st _ out bb g2 hready hrun]
+  have e2 : sem σ (r2.get (r1.get t)) = sliceList a b (sem σ (r1.get t)) := F2.sem_eq
+  have e1 : sem σ (r1.get t) = isort (lexLe ts) (sem σ t) := F1.sem_eq
+  rw [e2, e1]
+
+/-! non-vacuity of the two statements above: a two-row table, sorted descending, first row -/
+private def tx : Tag := ⟨"x", true⟩
+private def eS : Engine := ⟨0, .sql⟩
+private def rowsX : List Row := [fun t => if t = tx then some 1 else none, fun t => if t = tx then some 2 else none]
+private def sX : SqlState := { payloads := [(1, tablePayload "T" 1 0 [tx])], tables := [rowsX] }
+private def leafX : Rel := .leaf 1 eS [tx] "T" 0 none true 0
+private def sortedX : Rel := ((applyOp [] defaultFuel (.u (.sort [⟨.ref tx, false⟩])) leafX {}).toOption.map (·.get leafX)).getD leafX
+private def slicedX : Rel := ((applyOp [] defaultFuel (.u (.slice 0 (some 1))) sortedX {}).toOption.map (·.get sortedX)).getD sortedX
+example : (slicedX.isSelect, slicedX.slots.hasSort, slicedX.slots.hasSlice) = (true, true, true) := by decide +kernel
+example : (match sqlRun sX [] slicedX with
+    | .inr (out, _) => out.rows.map (fun r => r tx)
+    | .inl _ => []) = [some 2] := by decide +kernel
+example : ((conform [] defaultFuel slicedX).toOption.map (fun c => (c.get slicedX).structReady sX)) = some true := by
+  decide +kernel
 
 end DafRel.Props.C11
